@@ -80,6 +80,13 @@ def run(R):
                 if not any(fn.dominates(p, s.pos) for p, _ in allocs):
                     ok = False
                     det.append("allocatedSize_ enlarged before a buffer exists")
+            # the lock-free capacity check is what licenses indexing the buffer-pointer array without the
+            # mutex: it must acquire what the resizing thread released (buffer pointer written, then size)
+            for a in ops:
+                if (a.field or "").endswith("::allocatedSize_") and a.op == "load" and not any(fn.dominates(lp, a.pos) for lp, _ in locks):
+                    if not order_at_least(a.success_order, "acquire"):
+                        ok = False
+                        det.append("the lock-free load of allocatedSize_ is %s: a grower that sees the enlarged size may still read a stale buffer pointer" % a.success_order)
             # constructObjects only after the reserving CAS succeeded = after the do-while is left
             for p, e in cons:
                 if not all(fn.dominates(cp, p) for cp, _ in cas):
